@@ -1,8 +1,8 @@
 """C09 — no lost wake-ups (spec/tick/TickImpl.tla, TickTrace.tla)."""
-from vlib import core, tickcheck
+from vlib import core, tickcheck, partick
 
 LEVEL = "model_checking"
-TECHNIQUE = "implementation-shaped TLA+ model of tick/wake-up guards, ports and direct connections explored exhaustively by TLC; every script replayed on the real packages; traces monitored by TLC against the abstract rules"
+TECHNIQUE = "implementation-shaped TLA+ model of tick/wake-up guards, ports and direct connections explored exhaustively by TLC; every script replayed on the real packages; traces monitored by TLC against the abstract rules; logs of parallel-engine runs validated by TLC against ParTick.tla (nothing left undelivered when the run returns)"
 LEVEL_TEXT = ("TickImpl.tla models TickNow/TickLater and their dedup guard, ScheduleWakeAt, the four port notifications and the round-robin "
               "connection tick one micro-step per critical section; TLC explores every component script (sends, wake requests, stalls) within the "
               "bounds on several topologies and emits each quiescent behaviour with a flag saying whether the model ends with a lost wake-up. "
@@ -38,4 +38,7 @@ def run(ck):
     cases, out = tickcheck.run_and_monitor(ck, "random", random=300 if q else 6000, max_comps=5, max_msgs=10, stress=15 if q else 300)
     ck.cov["distinct_nontrivial"] += out["systems"]
     tickcheck.report_cases(ck, cases, {"C09"}, "random")
+    # the same on the parallel engine: a run that returns while a draining receiver has not got every message sent to it has stalled with
+    # deliverable messages (ParTick's `ret` rule); senders of one round wake one idle connection from several goroutines at once
+    partick.run(ck, systems=8 if q else 80, msgs=80 if q else 200, wide=1 if q else 8, wide_msgs=100 if q else 300, cfg="ParTick_deliveries.cfg")
     ck.cov["exhaustive"] = True
